@@ -22,6 +22,11 @@ EXPECTED = {
     ("tools/frame_tools.py", "TOOLS"): (set(), "constant registry of the command-line tools, never written"),
 }
 MUTABLE_CTORS = {"list", "dict", "set", "deque", "OrderedDict", "defaultdict"}
+from framelint.canon import canon_function as _canon_function_expanded
+
+def canon_function(fi, model=None, opts=None):   # rules of this file match shapes: look through every local
+    return _canon_function_expanded(fi, model, opts, expand=True)
+
 
 
 def _is_mutable_literal(v) -> bool:
